@@ -22,7 +22,8 @@ RULE = ("Hypothesis draws a scenario (store algorithm, content / document sizes 
         "short writes (every unbuffered or fd-level write takes only part of its buffer, as at a quota limit). "
         "evaluations = observations. "
         "Non-trivial = observation strictly inside a call that creates, replaces or removes a permanent file, "
-        "content >= 1 buffer; distinct key = (call kind, boundary kind, index, size class).")
+        "content >= 1 buffer; distinct key = (call kind, boundary kind, index, size class)."
+        ' Enumerated (round 9): an object / a document of 64 MiB + 1 block + 1 byte is removed (rejected by delete_if_invalid_object, its sole pid deleted, delete_metadata) or overwritten; observed at every boundary like the generated scenarios.')
 EXHAUSTIVE_NOTE = "within each scenario every boundary of the call is an observation point"
 ASSUMPTIONS = ["observation granularity = Python-level file-system operations of the calling process",
                "process death loses only user-space buffers, which an observer of the disk cannot see either"]
